@@ -20,7 +20,7 @@ for pid, c in sorted(CLAIMS.items()):
     })
 man = {
     'version': 1,
-    'setup_cmd': 'cd lean && lake build PhotVerif',
+    'setup_cmd': 'cd lean && lake build PhotVerif photdriver',
     'hooks': {
         'guard': 'PHOTUTILS_VERIF',
         'enable': 'no hooks are compiled into /repo: the checks import the editable install of /repo under '
